@@ -121,6 +121,10 @@ enum Ev {
     Attest500,
     /// environment: somebody removes the key directory while the agent runs (a clean-up job, an operator)
     KeyDirRemoved,
+    /// environment: the stored key files are damaged but still contain the key (bytes appended after the document /
+    /// the closing brace lost to a torn write); what the agent says about them on its next start is searched too
+    KeyFilesGarbageAppended,
+    KeyFilesLastByteLost,
 }
 
 struct Host {
@@ -393,6 +397,9 @@ fn main() {
     histories.push((vec![Ev::Enable, Ev::KeyDirRemoved, Ev::Rotate, Ev::Noop], 0));
     histories.push((vec![Ev::KeyDirRemoved, Ev::Enable, Ev::Noop], 0));
     histories.push((vec![Ev::Enable, Ev::KeyDirRemoved, Ev::Noop, Ev::Rotate], 0));
+    histories.push((vec![Ev::Enable, Ev::KeyFilesGarbageAppended, Ev::Restart, Ev::Noop], 0));
+    histories.push((vec![Ev::Enable, Ev::KeyFilesLastByteLost, Ev::Restart, Ev::Noop], 0));
+    histories.push((vec![Ev::Enable, Ev::KeyFilesLastByteLost, Ev::Noop, Ev::Rotate], 0));
     for f in faults {
         histories.push((vec![f, Ev::Enable, Ev::Noop], 0));
         histories.push((vec![Ev::Enable, f, Ev::Rotate, Ev::Noop], 0));
@@ -471,6 +478,23 @@ fn main() {
                 Ev::KeyDirRemoved => {
                     let _ = std::fs::remove_dir_all(KEYS_DIR);
                     sh.host.lock().unwrap().dir_removed = true;
+                }
+                Ev::KeyFilesGarbageAppended | Ev::KeyFilesLastByteLost => {
+                    if let Ok(rd) = std::fs::read_dir(KEYS_DIR) {
+                        for f in rd.flatten().filter(|f| f.file_name().to_string_lossy().ends_with(".key")) {
+                            if let Ok(mut d) = std::fs::read(f.path()) {
+                                if matches!(e, Ev::KeyFilesGarbageAppended) {
+                                    d.extend_from_slice(b"\0\0\0\0 trailing");
+                                } else {
+                                    while d.last().map_or(false, |b| b.is_ascii_whitespace()) {
+                                        d.pop();
+                                    }
+                                    d.pop(); // the closing brace
+                                }
+                                let _ = std::fs::write(f.path(), d);
+                            }
+                        }
+                    }
                 }
                 f => sh.host.lock().unwrap().fault = Some(*f),
             }
@@ -564,7 +588,7 @@ fn main() {
     res.cov("histories", histories.len() as u64);
     res.cov("keys_issued", keys_issued_total);
     res.cov("exhaustive", true);
-    res.cov("rule", "histories of host events over {enable, disable, rotate, no-op poll, agent restart} and one-shot faults that carry key material (acquire answered with the key but a missing field / trailing garbage / a non-hex key, 500 with the key in the body, a status document that fails validation, attest 500), with the key directory absent or left over with mode 0755, or removed by the environment while the agent runs (before the first latch / before a rotation); the whole agent (real start_service, loggers at Trace, production paths) runs as a child process in lock-step with the mock host; after every poll six client requests (allowed IMDS, WireServer, denied, direct, /provision, /provision with notify); afterwards every file under the log/event/status/key directories (key files excepted), stdout/stderr, /dev/console and all client responses are searched for every secret issued (hex any case, raw bytes); non-trivial = history in which a key was issued".to_string());
+    res.cov("rule", "histories of host events over {enable, disable, rotate, no-op poll, agent restart} and one-shot faults that carry key material (acquire answered with the key but a missing field / trailing garbage / a non-hex key, 500 with the key in the body, a status document that fails validation, attest 500), with the key directory absent or left over with mode 0755, or removed by the environment while the agent runs (before the first latch / before a rotation), or with the stored key files damaged but still containing the key (bytes appended / closing brace lost) before a restart; the whole agent (real start_service, loggers at Trace, production paths) runs as a child process in lock-step with the mock host; after every poll six client requests (allowed IMDS, WireServer, denied, direct, /provision, /provision with notify); afterwards every file under the log/event/status/key directories (key files excepted), stdout/stderr, /dev/console and all client responses are searched for every secret issued (hex any case, raw bytes); non-trivial = history in which a key was issued".to_string());
     res.assume("the kernel program is not attached (no kprobes here); the child installs real kernel maps for attribution like the E2 world");
     std::process::exit(res.finish());
 }
